@@ -12,6 +12,12 @@ use std::sync::Mutex;
 
 pub struct C09;
 
+const HAND: [&str; 3] = [
+    "struct Bones { transforms: array<mat4x4<f32>, 64>, colors: array<vec4<f32>, 33> }\nstruct Scene { bones: Bones, weights: array<f32, 40>, tint: vec4<f32> }\nstruct Small { items: array<vec4<f32>, 32>, n: u32 }\nstruct VIn { @location(0) a: vec4<f32>, @location(1) b: vec2<f32> }\n@group(0) @binding(0) var<storage, read> scene: Scene;\n@group(0) @binding(1) var<storage, read> small: Small;\n@vertex\nfn vs_main(v: VIn) -> @builtin(position) vec4<f32> { return v.a + scene.tint + small.items[0]; }\n",
+    "struct State { ready: bool, total: u32, flags: vec2<bool> }\nstruct Counters { hits: u32, misses: u32 }\nstruct VIn { @location(0) a: vec4<f32> }\nvar<workgroup> state: State;\nvar<private> pstate: State;\nvar<private> counters: Counters;\n@group(0) @binding(0) var<storage, read_write> out_counters: Counters;\n@compute @workgroup_size(1)\nfn main() { state.total = 1u; pstate.ready = true; counters.hits = 2u; out_counters.hits = counters.hits + state.total; }\n@vertex\nfn vs_main(v: VIn) -> @builtin(position) vec4<f32> { return v.a; }\n",
+    "struct Palette { entries: array<array<vec4<f32>, 2>, 48> }\nstruct Frame { palette: array<Palette, 2>, exposure: f32 }\nstruct FIn { @location(0) uv: vec2<f32> }\n@group(0) @binding(0) var<storage, read> frame: Frame;\n@fragment\nfn fs_main(f: FIn) -> @location(0) vec4<f32> { return frame.palette[0].entries[1][0] * frame.exposure + vec4<f32>(f.uv, 0.0, 0.0); }\n",
+];
+
 fn derive_set(attrs: &[String]) -> Option<Vec<String>> {
     let d: Vec<&String> = attrs.iter().filter(|a| a.starts_with("#[derive(")).collect();
     if d.len() != 1 {
@@ -88,6 +94,20 @@ impl Property for C09 {
                     continue;
                 }
                 out.push(Case::new(format!("world{i}/opts{k}"), w.wgsl.clone(), Params::with_opts(*o)));
+            }
+        }
+        // hand-written shapes (round 7/8 seeds): fixed arrays longer than 32 elements (serde implements its traits for arrays
+        // only up to 32: a tempting reason to drop the derive), directly, nested in a member struct and as array element;
+        // structs with bool members in private / workgroup variables, with validation on and off (naga's TypeFlags::HOST_SHAREABLE
+        // is false for them, the property's host-shareable is "reachable from a module-scope variable")
+        for (k, src) in HAND.iter().enumerate() {
+            for (j, o) in grid.iter().enumerate() {
+                if tier == Tier::Quick && j / 16 != k % 3 {
+                    continue;
+                }
+                for v in [false, true] {
+                    out.push(Case::new(format!("hand{k}/opts{j}/validate={v}"), src.to_string(), Params::with_opts(*o).validated(v)));
+                }
             }
         }
         out
